@@ -62,25 +62,28 @@ Definition rotates (rotnum : N) (append force : bool) : bool :=
   (0 <? rotnum) && (negb append || force).
 
 Lemma rotate_sem : forall name rotnum append compress force d,
-  rotnum <= cap -> rotates rotnum append force = true ->
+  rotates rotnum append force = true ->
   exists d', rotate name rotnum append compress force d = Ok d' /\
     lookup d' name = Some [] /\
-    chain (gen_log name compress) rotnum d d' /\
-    (forall x, (forall k, k <= rotnum -> x <> gen_log name compress k) -> lookup d' x = lookup d x).
+    chain (gen_log name compress) (kept rotnum) d d' /\
+    (forall x, (forall k, k <= kept rotnum -> x <> gen_log name compress k) -> lookup d' x = lookup d x).
 Proof.
-  intros name rotnum append compress force d Hcap Hrot.
-  unfold rotates in Hrot. unfold rotate. rewrite Hrot.
+  intros name rotnum append compress force d Hrot.
+  unfold rotates in Hrot. unfold rotate, rotate_gen. rewrite Hrot.
   apply andb_true_iff in Hrot. destruct Hrot as [Hpos _]. apply N.ltb_lt in Hpos.
   destruct (log_names name compress rotnum) as [v [Hbuild Hrep]].
-  rewrite Hbuild. rewrite (kept_le rotnum Hcap) in Hrep.
-  set (g := gen_log name compress) in *. set (l := map g (range0 rotnum)) in *.
-  assert (Hlen : length l = S (N.to_nat rotnum)) by (unfold l; rewrite map_length, range0_length; reflexivity).
+  rewrite Hbuild.
+  assert (Hn : 0 < kept rotnum) by (unfold kept, cap; lia).
+  set (n := kept rotnum) in *.
+  set (g := gen_log name compress) in *. set (l := map g (range0 n)) in *.
+  assert (Hlen : length l = S (N.to_nat n)) by (unfold l; rewrite map_length, range0_length; reflexivity).
+  replace (vlen v - 1) with n by (destruct Hrep as [Hl _]; rewrite Hl, Hlen; lia).
   rewrite (shift_loop_vrep v l Hrep), (vrep_fuel v l Hrep).
-  destruct (shift_loop_ok l (NoDup_family g rotnum (gen_log_inj name compress))
-                          (N.to_nat rotnum) (length l) d) as [d1 [Hrun Hsh]]; [lia|lia|].
+  destruct (shift_loop_ok l (NoDup_family g n (gen_log_inj name compress))
+                          (N.to_nat n) (length l) d) as [d1 [Hrun Hsh]]; [lia|lia|].
   rewrite N2Nat.id in Hrun. rewrite Hrun. cbn [res_map].
-  pose proof (shifted_zero g rotnum d d1 Hpos Hsh) as Hz. change (g 0) with name in Hz.
-  pose proof (shifted_chain g rotnum d d1 Hsh) as Hch.
+  pose proof (shifted_zero g n d d1 Hn Hsh) as Hz. change (g 0) with name in Hz.
+  pose proof (shifted_chain g n d d1 Hsh) as Hch.
   assert (Hopen : forall x, x <> name ->
             lookup ((if append then open_app name else open_trunc name) d1) x = lookup d1 x).
   { intros x Hx. destruct append; [rewrite lookup_open_app|rewrite lookup_open_trunc];
@@ -100,15 +103,16 @@ Lemma rotate_idle : forall name rotnum append compress force d,
   rotate name rotnum append compress force d =
   Ok ((if append then open_app name else open_trunc name) d).
 Proof.
-  intros. unfold rotates in H. unfold rotate. rewrite H. reflexivity.
+  intros. unfold rotates in H. unfold rotate, rotate_gen. rewrite H. reflexivity.
 Qed.
 
-Lemma rotate_oob : forall name rotnum append compress force d,
+(* the routine before the repair a64fc7d: every count above the cap indexes outside the vector *)
+Lemma rotate_orig_oob : forall name rotnum append compress force d,
   cap < rotnum -> rotates rotnum append force = true ->
-  rotate name rotnum append compress force d = OOB.
+  rotate_orig name rotnum append compress force d = OOB.
 Proof.
   intros name rotnum append compress force d Hcap Hrot.
-  unfold rotates in Hrot. unfold rotate. rewrite Hrot.
+  unfold rotates in Hrot. unfold rotate_orig, rotate_gen. rewrite Hrot.
   destruct (log_names name compress rotnum) as [v [Hbuild Hrep]]. rewrite Hbuild.
   rewrite (shift_loop_vrep v _ Hrep), (vrep_fuel v _ Hrep).
   rewrite shift_loop_oob; [reflexivity| | |].
@@ -128,42 +132,45 @@ Lemma lookup_open2 : forall name d x,
 Proof. intros. rewrite !lookup_open_trunc. reflexivity. Qed.
 
 Lemma initialise_sem : forall name rotnum d,
-  rotnum <= cap -> 0 < rotnum ->
+  0 < rotnum ->
   exists d', initialise name rotnum true d = Ok d' /\
     lookup d' name = Some [] /\ lookup d' (name ++ s_idx)%list = Some [] /\
-    chain (gen_db name) rotnum d d' /\ chain (gen_idx name) rotnum d d' /\
-    (forall x, (forall k, k <= rotnum -> x <> gen_db name k /\ x <> gen_idx name k) -> lookup d' x = lookup d x).
+    chain (gen_db name) (kept rotnum) d d' /\ chain (gen_idx name) (kept rotnum) d d' /\
+    (forall x, (forall k, k <= kept rotnum -> x <> gen_db name k /\ x <> gen_idx name k) -> lookup d' x = lookup d x).
 Proof.
-  intros name rotnum d Hcap Hpos.
-  unfold initialise. rewrite orb_true_r. cbn [andb].
+  intros name rotnum d Hpos.
+  unfold initialise, initialise_gen. rewrite orb_true_r. cbn [andb].
   replace (0 <? rotnum) with true by (symmetry; apply N.ltb_lt; exact Hpos).
   destruct (db_names name rotnum) as [vd [Hbd Hrd]]. destruct (idx_names name rotnum) as [vi [Hbi Hri]].
-  rewrite Hbd, Hbi. rewrite (kept_le rotnum Hcap) in Hrd, Hri.
+  rewrite Hbd, Hbi.
+  assert (Hn : 0 < kept rotnum) by (unfold kept, cap; lia).
+  set (n := kept rotnum) in *.
   set (gd := gen_db name) in *. set (gi := gen_idx name) in *.
-  set (dbl := map gd (range0 rotnum)) in *. set (idl := map gi (range0 rotnum)) in *.
+  set (dbl := map gd (range0 n)) in *. set (idl := map gi (range0 n)) in *.
+  assert (Hld : length dbl = S (N.to_nat n)) by (unfold dbl; rewrite map_length, range0_length; reflexivity).
+  assert (Hli : length idl = S (N.to_nat n)) by (unfold idl; rewrite map_length, range0_length; reflexivity).
+  replace (vlen vd - 1) with n by (destruct Hrd as [Hl _]; rewrite Hl, Hld; lia).
   rewrite (shift_loop2_vrep vd dbl vi idl Hrd Hri), (vrep_fuel vd dbl Hrd).
-  assert (Hld : length dbl = S (N.to_nat rotnum)) by (unfold dbl; rewrite map_length, range0_length; reflexivity).
-  assert (Hli : length idl = S (N.to_nat rotnum)) by (unfold idl; rewrite map_length, range0_length; reflexivity).
   assert (Hdisj : forall x, In x dbl -> ~ In x idl).
   { intros x H1 H2. apply in_family in H1. apply in_family in H2.
     destruct H1 as [j [_ ->]]. destruct H2 as [k [_ E]]. exact (gen_db_idx_disjoint name j k E). }
-  destruct (shift_loop2_decomp dbl idl (eq_trans Hld (eq_sym Hli)) Hdisj (N.to_nat rotnum) (length dbl) d d)
+  destruct (shift_loop2_decomp dbl idl (eq_trans Hld (eq_sym Hli)) Hdisj (N.to_nat n) (length dbl) d d)
     as [r [r1 [r2 [Hrun [H1 [H2 Hr]]]]]]; [lia|lia|apply deq_refl|].
   rewrite N2Nat.id in Hrun. rewrite Hrun. cbn [res_map].
   (* the two single loops *)
-  destruct (shift_loop_ok dbl (NoDup_family gd rotnum (gen_db_inj name)) (N.to_nat rotnum) (length dbl) d)
+  destruct (shift_loop_ok dbl (NoDup_family gd n (gen_db_inj name)) (N.to_nat n) (length dbl) d)
     as [r1' [H1' S1]]; [lia|lia|]. rewrite H1 in H1'. inversion H1'; subst r1'. clear H1'.
-  destruct (shift_loop_ok idl (NoDup_family gi rotnum (gen_idx_inj name)) (N.to_nat rotnum) (length dbl) r1)
+  destruct (shift_loop_ok idl (NoDup_family gi n (gen_idx_inj name)) (N.to_nat n) (length dbl) r1)
     as [r2' [H2' S2]]; [lia|lia|]. rewrite H2 in H2'. inversion H2'; subst r2'. clear H2'.
   (* frames: the data loop leaves index names alone and vice versa *)
   assert (F1 : forall k, lookup r1 (gi k) = lookup d (gi k)).
   { intros k. eapply shifted_frame; [exact S1|]. intros j _ E. exact (gen_db_idx_disjoint name j k (eq_sym E)). }
   assert (F2 : forall k, lookup r2 (gd k) = lookup r1 (gd k)).
   { intros k. eapply shifted_frame; [exact S2|]. intros j _ E. exact (gen_db_idx_disjoint name k j E). }
-  assert (Cd : chain gd rotnum d r).
-  { intros k Hk. rewrite Hr, F2. apply (shifted_chain gd rotnum d r1 S1 k Hk). }
-  assert (Ci : chain gi rotnum d r).
-  { intros k Hk. rewrite Hr. rewrite (shifted_chain gi rotnum r1 r2 S2 k Hk), !F1. reflexivity. }
+  assert (Cd : chain gd n d r).
+  { intros k Hk. rewrite Hr, F2. apply (shifted_chain gd n d r1 S1 k Hk). }
+  assert (Ci : chain gi n d r).
+  { intros k Hk. rewrite Hr. rewrite (shifted_chain gi n r1 r2 S2 k Hk), !F1. reflexivity. }
   assert (Hopen : forall x, x <> name -> x <> (name ++ s_idx)%list ->
             lookup (open_trunc (name ++ s_idx)%list (open_trunc name r)) x = lookup r x).
   { intros x N1 N2. rewrite lookup_open2, !str_eqb_neq by congruence. reflexivity. }
@@ -186,10 +193,10 @@ Proof.
     + apply (Hx 0). lia.
 Qed.
 
-Lemma initialise_oob : forall name rotnum d,
-  cap < rotnum -> initialise name rotnum true d = OOB.
+Lemma initialise_orig_oob : forall name rotnum d,
+  cap < rotnum -> initialise_orig name rotnum true d = OOB.
 Proof.
-  intros name rotnum d Hcap. unfold initialise. rewrite orb_true_r. cbn [andb].
+  intros name rotnum d Hcap. unfold initialise_orig, initialise_gen. rewrite orb_true_r. cbn [andb].
   replace (0 <? rotnum) with true by (symmetry; apply N.ltb_lt; unfold cap in *; lia).
   destruct (db_names name rotnum) as [vd [Hbd Hrd]]. destruct (idx_names name rotnum) as [vi [Hbi Hri]].
   rewrite Hbd, Hbi. rewrite (shift_loop2_vrep vd _ vi _ Hrd Hri), (vrep_fuel vd _ Hrd).
